@@ -40,9 +40,15 @@ def gen(seed, n, out):
             c = comps["recase"].make(rng, {"nmax": 5})
             if c is None:
                 continue
+            if rng.random() < 0.2:
+                import gen as _gen
+                c = _gen.latin1ify(rng, c)
             cases.append({"kind": "lib", "case": {"desc": c["desc"], "isa": c["isa"], "lines": c["lines"]}})
         else:
             c = comps[k].make(rng, {})
+            if c is not None and rng.random() < 0.2:
+                import gen as _gen
+                c = _gen.latin1ify(rng, c)
             if c is not None:
                 cases.append({"kind": k, "case": c})
     json.dump(cases, open(out, "w"))
